@@ -8,6 +8,7 @@ import (
 
 	btapb "cloud.google.com/go/bigtable/admin/apiv2/adminpb"
 	btpb "cloud.google.com/go/bigtable/apiv2/bigtablepb"
+	"google.golang.org/grpc/codes"
 	"google.golang.org/grpc/status"
 	"google.golang.org/protobuf/proto"
 	"google.golang.org/protobuf/types/known/durationpb"
@@ -419,10 +420,37 @@ func c20BTMix(r *Run, cfg *Stream) {
 			w.MutateRows(tmp, es)
 		}
 		if huge {
+			// one row so large that it has an engine table file to itself
+			var muts mutList
+			for c := 0; c < 25; c++ {
+				muts = append(muts, setCell("f1", fmt.Sprintf("q%02d", c), 1000, strings.Repeat("y", 100<<10)))
+			}
+			for _, k := range []string{"t050x", "t050y", "t050z"} {
+				w.MutateRows(tmp, []entryIn{{Key: k, Muts: muts}})
+			}
 			w.Settle() // everything in table files, whatever goleveldb's background goroutines were up to
 		}
 	}
 	mkTmp()
+	if huge {
+		// empty and one-row ranges around the row that fills a table file of its own
+		for _, ks := range []string{"t050x", "t050y", "t050z"} {
+			k := []byte(ks)
+			for _, rr := range []*btpb.RowRange{
+				{StartKey: &btpb.RowRange_StartKeyOpen{StartKeyOpen: k}, EndKey: &btpb.RowRange_EndKeyOpen{EndKeyOpen: k}},
+				{StartKey: &btpb.RowRange_StartKeyClosed{StartKeyClosed: k}, EndKey: &btpb.RowRange_EndKeyOpen{EndKeyOpen: k}},
+				{StartKey: &btpb.RowRange_StartKeyOpen{StartKeyOpen: k}, EndKey: &btpb.RowRange_EndKeyClosed{EndKeyClosed: k}},
+				{StartKey: &btpb.RowRange_StartKeyClosed{StartKeyClosed: k}, EndKey: &btpb.RowRange_EndKeyClosed{EndKeyClosed: k}},
+			} {
+				res := w.ReadRows(&btpb.ReadRowsRequest{TableName: tmp, Rows: &btpb.RowSet{RowRanges: []*btpb.RowRange{rr}}, Filter: &btpb.RowFilter{Filter: &btpb.RowFilter_StripValueTransformer{StripValueTransformer: true}}})
+				if res.Err != nil && status.Code(res.Err) != codes.InvalidArgument {
+					r.Fail("read-failed", "", "ReadRows %v on the large table: %v", rr, res.Err)
+					return
+				}
+				r.Probe("c20.degenerate_range_on_a_row_with_its_own_table_file")
+			}
+		}
+	}
 	s := r.NewSched()
 	s.Budget = 600000
 	nOps := 1 + cfg.Intn(4)
